@@ -178,7 +178,7 @@ theorem C01_compiled_executor_refines_dataflow {Val : Type} (winsOf : Wins) (ste
 
 /-- the same statement with the hypothesis C08 uses ("every node writes the consecutive sequence numbers 0, 1, 2, …") in
 place of "steps in sequence order": the latter follows (`hseq_of_consec`) -/
-theorem C01_compiled_executor_refines_dataflow' {Val : Type} (winsOf : Wins) (step : Step Val) (B : List Nat) (Tr : List (List Vtx))
+theorem C01_compiled_executor_refines_dataflow_consec {Val : Type} (winsOf : Wins) (step : Step Val) (B : List Nat) (Tr : List (List Vtx))
     (hok : traceOk true (B.map Ring.init) (Tr.map (genOfV winsOf)) = true)
     (hnd : Tr.flatten.Nodup)
     (hpos : ∀ v ∈ Tr.flatten, 0 ≤ v.seq)
